@@ -282,6 +282,14 @@ def build() -> Check:
             continue
         ck.ob("R5.through-template", construct, not bad and n_proc > 0,
               (bad[0][1] + ": " + trace_sig(bad[0][0])) if bad else f"{n_proc} process() calls")
+    # the recorded outcome of an operation inside a child body is found by the id drawn from the body's context: a body that is run
+    # again (timer re-submission, next invocation) must draw the same ids, i.e. start from a context created for that run
+    from sa.common import child_context_escapes
+    sites_cc, esc = child_context_escapes(prog)
+    ck.floor("child_context_creation_sites", len(sites_cc), 4)
+    for fi_, c_ in sites_cc:
+        mine = [why for f2, n2, why in esc if f2 is fi_]
+        ck.ob("R5.body-rerun-draws-same-ids", fn_construct(fi_), not mine, "; ".join(mine), where=f"line {c_.lineno}")
     return ck
 
 
